@@ -51,7 +51,7 @@ def build(repo, findings):
     u.add(ft)
     im = src.item(r'^impl CallStack \{(?=\n    /// Creates a new empty script call stack\.)', 'impl CallStack').r1()
     im.keep_only_fns(['pop', 'push_script', 'push_trap_handler', 'push_eval', 'push_command_string', 'push_interactive_session', 'push_function',
-                      'function_call_depth', 'script_source_depth', 'is_trap_signal_active', 'is_trap_delivery_suppressed',
+                      'function_call_depth', 'script_source_depth', 'current_frame', 'is_trap_signal_active', 'is_trap_delivery_suppressed',
                       'acquire_trap_delivery_block', 'release_trap_delivery_block', 'depth', 'is_empty'],
                      'constructors via Default, iterator-returning accessors, source-position helpers — NOT verified')
     # R10: generic parameters instantiated; R15: initialisers no contract mentions -> arbitrary value
